@@ -36,14 +36,7 @@ func (round *round5) Start() *tss.Error {
 		round.save.Xi = round.temp.newXi
 		round.save.Ks = round.temp.newKs
 
-		// misc: build list of paillier public keys to save
-		for j, msg := range round.temp.dgRound2Message1s {
-			if j == i {
-				continue
-			}
-			r2msg1 := msg.Content().(*DGRound2Message1)
-			round.save.PaillierPKs[j] = r2msg1.UnmarshalPaillierPK()
-		}
+		// the other new members' paillier public keys were saved in round 4, when their proofs were verified
 		for j, msg := range round.temp.dgRound4Message1s {
 			if j == i {
 				continue
